@@ -124,7 +124,10 @@ SyncOf(sc, peer) == IF ~HasFam(sc, "core_tracker_parsig_cohort_rank_total") THEN
 SyncPeer(a, z, peer) == LET dT == SyncOf(z, peer).tot - SyncOf(a, peer).tot
                             dD == SyncOf(z, peer).dis - SyncOf(a, peer).dis IN
   IF dT < 20000 THEN 0 ELSE IF 20 * dD > dT THEN 1 ELSE 0
-Tri(S) == IF 1 \in S THEN {TRUE} ELSE IF 2 \in S THEN {TRUE, FALSE} ELSE {FALSE}
+\* Defect = "required": the REQUIRED behaviour where the code deviates from the documented rule (known findings): "> 4 %" is strict
+\* also in floating point; a counter that appears inside the window has grown from 0
+Required == Defect = "required"
+Tri(S) == IF 1 \in S THEN {TRUE} ELSE IF 2 \in S /\ ~Required THEN {TRUE, FALSE} ELSE {FALSE}
 
 \* ---- memory ring: snapshots [b, ok] (ok: taken at least WarmMs after the process start it reports)
 Avg(seq) == LET K == {k \in DOMAIN seq : seq[k].ok} IN [n |-> Cardinality(K), s |-> SumOver([k \in DOMAIN seq |-> seq[k].b], K)]
@@ -147,7 +150,9 @@ Eval(c, w, lw, m) ==
     [] c.kind = "mem" -> MemFires(m)
     [] OTHER -> LET ss == Sels(c, w) IN
          IF AnyErr(ss) THEN {FALSE}
-         ELSE IF c.kind = "increase" THEN {Cmp(c, IF Len(ss) < 2 THEN 0 ELSE ss[Len(ss)].v - ss[1].v)}
+         ELSE IF c.kind = "increase" THEN
+           IF Required /\ Len(w) >= 2 /\ Len(ss) >= 1 /\ ~HasFam(w[1], c.metric) THEN {Cmp(c, ss[Len(ss)].v)}     \* born inside the window: grown from 0
+           ELSE {Cmp(c, IF Len(ss) < 2 THEN 0 ELSE ss[Len(ss)].v - ss[1].v)}
          ELSE IF Defect = "maxLast" THEN {Cmp(c, IF Len(ss) = 0 THEN 0 ELSE MaxI({0, ss[Len(ss)].v}))}
          ELSE {Cmp(c, MaxI({0} \cup {ss[k].v : k \in DOMAIN ss}))}
 
